@@ -57,7 +57,7 @@ def parse_struct(text):
             if k == ri[0]:
                 continue
             if a in ('r', 'w', 'rw'):
-                access = a
+                access = ''.join(sorted(set(access + a)))      # `r, w` means readable and writable
             else:
                 sm = re.fullmatch(r'stride\s*[=:]\s*(\d+)', a)
                 if not sm:
@@ -82,7 +82,7 @@ def parse_struct(text):
                 raise ValueError(f"type {ty} does not match {w} bits")
         elif re.match(r'(::)?((core|std)::option::)?Option<', ty):
             kind = 'o'
-        elif re.fullmatch(r'(self::)?N\d+', ty):
+        elif re.fullmatch(r'(self::)?A?N\d+', ty):
             kind = 'c'
         else:
             kind = 'e'
